@@ -125,9 +125,10 @@ func init() {
 	}, oracleNoPanic, oracleConserved)
 	{
 		base := props["C03"]
-		props["C03"] = propRun{rule: base.rule + "; conserve stage: command lines built token by token from occurrences of declared options (attached and separate values), plain words (among them ---x, ---, -), unknown options and the terminator, under every combination of PassDoubleDash / PassAfterNonOption / IgnoreUnknown, with and without positional fields; which tokens are passed through - and so what the positional fields and the remaining arguments must hold, in order - is computed from the construction", run: func(c *Ctx) {
+		props["C03"] = propRun{rule: base.rule + "; conserve stage: command lines built token by token from occurrences of declared options (attached and separate values), plain words (among them ---x, ---, -), unknown options and the terminator, under every combination of PassDoubleDash / PassAfterNonOption / IgnoreUnknown, with and without positional fields; which tokens are passed through - and so what the positional fields and the remaining arguments must hold, in order - is computed from the construction; handed stage: IgnoreUnknown with executable commands (two levels, CommandHandler or not), unknown options in front of, between and behind command words (a word is a command word only while nothing has been passed through): what is returned and what the command / handler is handed, identically, stated token by token", run: func(c *Ctx) {
 			base.run(c)
 			checkC03Conserve(c, budget(c.Tier, 1500, 60000))
+			checkC03Handed(c, budget(c.Tier, 600, 30000))
 		}}
 	}
 	parseProp("C04", caseRule+"emphasis: arbitrary bytes, malformed tokens, PrintErrors", 2500, 100000, func(p *Profile) {
